@@ -29,6 +29,56 @@ class CheckError(Exception):
 
 # --------------------------------------------------------------------------- facts acquisition
 
+FIXTURES = os.path.join(VERIF, "driver", "fixtures")
+_fixture_facts = None
+
+
+def fixture_facts():
+    """Facts of the control crate /verif/driver/fixtures (positive / negative controls of the detectors), extracted by
+    the same driver; cached by the content hash of the fixture sources and of the driver binary."""
+    global _fixture_facts
+    if _fixture_facts is not None:
+        return _fixture_facts
+    ensure_tools()
+    os.makedirs(CACHE, exist_ok=True)
+    h = hashlib.sha256()
+    for rel in ("Cargo.toml", os.path.join("src", "lib.rs")):
+        with open(os.path.join(FIXTURES, rel), "rb") as fh:
+            h.update(fh.read())
+    with open(DRIVER, "rb") as fh:
+        h.update(hashlib.sha256(fh.read()).digest())
+    d = os.path.join(CACHE, "fixture-" + h.hexdigest()[:24])
+    lock = open(os.path.join(CACHE, "lock-fixture"), "w")
+    fcntl.flock(lock, fcntl.LOCK_EX)
+    try:
+        if not os.path.exists(os.path.join(d, "COMPLETE")):
+            for old in glob.glob(os.path.join(CACHE, "fixture-*")):
+                shutil.rmtree(old, ignore_errors=True)
+            import tempfile
+            scratch = tempfile.mkdtemp(prefix="verif-fix.", dir="/var/tmp")
+            try:
+                src = os.path.join(scratch, "vfix")
+                shutil.copytree(FIXTURES, src, ignore=shutil.ignore_patterns("target", "Cargo.lock"))
+                tmp = d + ".tmp%d" % os.getpid()
+                os.makedirs(tmp)
+                r = subprocess.run([os.path.join(VERIF, "driver", "run.sh"), tmp], env=dict(os.environ, VERIF_REPO=src),
+                                   stdout=subprocess.PIPE, stderr=subprocess.STDOUT, text=True)
+                if r.returncode != 0 or not glob.glob(os.path.join(tmp, "*.json")):
+                    shutil.rmtree(tmp, ignore_errors=True)
+                    raise CheckError("fact extraction failed on the control crate:\n" + r.stdout[-3000:])
+                open(os.path.join(tmp, "COMPLETE"), "w").write("ok\n")
+                os.rename(tmp, d)
+            finally:
+                shutil.rmtree(scratch, ignore_errors=True)
+    finally:
+        fcntl.flock(lock, fcntl.LOCK_UN)
+        lock.close()
+    _fixture_facts = Facts(d)
+    if "vfix" not in _fixture_facts.crates:
+        raise CheckError("control crate facts missing (fail closed)")
+    return _fixture_facts
+
+
 def tree_hash():
     h = hashlib.sha256()
     for root, dirs, files in os.walk(REPO):
@@ -472,6 +522,38 @@ def load_known_findings():
     return out
 
 
+class Probe:
+    """Stands in for a Check when a rule is run on the control crate: records what would have been reported."""
+    def __init__(self):
+        self.keys, self.oks, self.extra, self.assumptions, self.trusted, self.findings = [], [], {}, [], [], []
+
+    def ok(self, rule, instance, note="", nontrivial=True, **kw):
+        self.oks.append((rule, str(instance)))
+
+    def bad(self, rule, key, msg, loc=None, instance=None, **detail):
+        self.keys.append(key)
+
+    def floor(self, *a, **k):
+        pass
+
+    def obligation(self, *a, **k):
+        pass
+
+    def control(self, *a, **k):
+        pass
+
+    def fired(self, pattern):
+        return any(re.search(pattern, k) for k in self.keys)
+
+
+def fixture_fn(name):
+    fx = fixture_facts()
+    fns = [f for f in fx.fns.values() if f.name == name]
+    if len(fns) != 1:
+        raise CheckError("control `%s` not found in the fixture crate (fail closed)" % name)
+    return fns[0]
+
+
 class Check:
     """One run of one property's check."""
 
@@ -511,6 +593,20 @@ class Check:
         self.instances.append(d)
         if held:
             self.discharged += 1
+
+    def control(self, rule, name, fired, expect=True, note=""):
+        """Outcome of running a detector on a control of the fixture crate (driver/fixtures): positive controls must
+        fire, negative ones must stay silent.  A wrong outcome means the *checker* is broken: fail closed."""
+        if bool(fired) != bool(expect):
+            self.bad(rule, "%s@control:%s" % (rule, name),
+                     "checker self-test failed: the detector of %s %s on the control `%s` of /verif/driver/fixtures "
+                     "(expected: %s) — the rule cannot be trusted on /repo" % (
+                         rule, "fired" if fired else "stayed silent", name, "fire" if expect else "silent"))
+        else:
+            self.instances.append(dict(rule=rule, instance="control:%s" % name, verdict="ok", nontrivial=False,
+                                       note=("positive control: detector fired" if expect else
+                                             "negative control: detector silent") + ((" — " + note) if note else "")))
+            self.extra.setdefault("controls", []).append("%s:%s=%s" % (rule, name, "fired" if expect else "silent"))
 
     def floor(self, rule, what, count, minimum):
         """fail closed if fewer rule instances than confirmed by hand"""
